@@ -318,6 +318,39 @@ func runC17(r *mc.Run) {
 		})
 		r.SectionDone(mc.Section{Name: "event-log-sizes", Evaluations: int64(done), Exhaustive: done == len(sizes)*2, Note: fmt.Sprintf("%d lengths x {log, twin with the last byte flipped}", len(sizes))})
 	}
+	// invalid requests with event logs of every size class: the register index and the hash algorithm are judged
+	// whatever the length of the log
+	{
+		sizes := []int{0, 1, 48, 4095, 4096, 4097, 65536, 65537, 1<<20 + 1}
+		type bad struct {
+			idx  int
+			hash crypto.Hash
+		}
+		bads := []bad{{4, crypto.SHA384}, {5, crypto.SHA384}, {12, crypto.SHA384}, {255, crypto.SHA384}, {-1, crypto.SHA384}, {1 << 40, crypto.SHA384},
+			{2, crypto.SHA256}, {2, crypto.SHA512}, {0, crypto.SHA1}, {4, crypto.SHA256}}
+		done := r.Parallel(len(sizes)*len(bads), func(n int) {
+			size, b := sizes[n/len(bads)], bads[n%len(bads)]
+			id := fmt.Sprintf("invalid-request-with-log-of/%d/idx=%d,hash=%v", size, b.idx, b.hash)
+			if !r.Want(id) {
+				return
+			}
+			lg := make([]byte, size)
+			for i := range lg {
+				lg[i] = byte(i*11 + i>>8)
+			}
+			op := c17op{name: fmt.Sprintf("eventlog(idx=%d,hash=%v,len=%d)", b.idx, b.hash, size), valid: false, index: b.idx}
+			t := world.NewTSM()
+			var err error
+			func() { defer world.Recover(&err); err = rtmr.ExtendEventLogClient(t, b.idx, b.hash, lg) }()
+			out := c17Judge(r, id, op, err, t.Log, "", t)
+			if t.Regs != ([4][48]byte{}) {
+				r.Violate("register-changed-by-invalid-request:log-size", id, "an invalid extend request changed a register", map[string]any{"log_bytes": size})
+				out = "bad-register"
+			}
+			r.Eval(id, true, "invalid-with-size:"+out)
+		})
+		r.SectionDone(mc.Section{Name: "invalid-requests-x-log-sizes", Evaluations: int64(done), Exhaustive: done == len(sizes)*len(bads)})
+	}
 	r.Set("alphabet_size", len(ops))
 	r.Set("initial_states", len(inits))
 	r.Set("depth_all_initial_states", depthAll)
